@@ -22,6 +22,13 @@ Proof.
   - intros X. rewrite IH by exact X. reflexivity.
 Qed.
 
+Lemma zget_In_local {V} f (c : V) (d : zdict V) : zget f d = Some c -> In (f, c) d.
+Proof.
+  induction d as [|[k v] t IH]; cbn [zget]; [discriminate|].
+  destruct (f =? k)%Z eqn:E; [intros X; inversion X; subst; apply Z.eqb_eq in E; subst; left; reflexivity|].
+  intros X; right; apply IH; exact X.
+Qed.
+
 Definition valid_mask (m : mask) : Prop := m = 1 \/ m = 2 \/ m = 3.
 Definition valid_events (evs : sel_events) : Prop :=
   NoDup (zkeys evs) /\ forall f m, In (f, m) evs -> (0 <= f)%Z /\ valid_mask m.
@@ -146,12 +153,22 @@ Section Sync.
   Proof.
     intros r0 w0 Hs Ht. revert r0 w0. induction l as [|[f ev] t IH]; intros r0 w0; cbn [select_loop t_select].
     - cbn [fst snd]. rewrite !app_nil_r. reflexivity.
-    - unfold select_one. rewrite Hs, Ht. destruct (t_select smT t) as [rs ws] eqn:Et.
+    - unfold select_one. cbv beta iota. rewrite Hs, Ht. destruct (t_select smT t) as [rs ws] eqn:Et.
       destruct (zget f regs) as [kev|]; [|apply IH].
-      cbn [negb andb]. unfold zmem. cbn [zget]. rewrite Z.eqb_refl. cbn [zset]. rewrite Z.eqb_refl.
-      rewrite IH. cbn [fst snd].
+      cbn [negb andb]. unfold zmem. cbn [zget]. rewrite Z.eqb_refl. cbn [zset zget]. rewrite ?Z.eqb_refl. cbn [zget].
+      rewrite ?Z.eqb_refl.
       destruct (N.land (N.land ev kev) EVENT_READ =? 0), (N.land (N.land ev kev) EVENT_WRITE =? 0);
-        cbn [fst snd]; rewrite <- ?app_assoc; reflexivity.
+        rewrite IH; cbn [fst snd]; rewrite <- ?app_assoc; reflexivity.
+  Qed.
+
+  Lemma select_one_first (i : work_id) (f : fd) (ev kev : mask) (selS : selmap) :
+    zget f selS = Some (kev, i) ->
+    select_one None selS ([], true) (f, ev) =
+    Ok ([(i, (if N.land (N.land ev kev) EVENT_READ =? 0 then [] else [f],
+              if N.land (N.land ev kev) EVENT_WRITE =? 0 then [] else [f]))], true).
+  Proof.
+    intros H. unfold select_one. cbv beta iota. rewrite H. cbn [negb andb zmem zget zset]. rewrite Z.eqb_refl. cbn [zget zset app].
+    rewrite ?Z.eqb_refl. reflexivity.
   Qed.
 
   Lemma select_loop_sync i regs selS smT l :
@@ -160,13 +177,334 @@ Section Sync.
     select_loop None selS ([], true) l =
     Ok (if any_reg regs l then [(i, t_select smT l)] else [], true).
   Proof.
-    intros Hs Ht. induction l as [|[f ev] t IH]; cbn [select_loop t_select any_reg existsb fst]; [reflexivity|].
-    unfold select_one. rewrite Hs, Ht. unfold zmem at 1.
-    destruct (zget f regs) as [kev|] eqn:Ef; cbn [orb].
-    - cbn [negb andb]. unfold zmem. cbn [zget zset].
-      rewrite (select_loop_one i regs selS smT t _ _ Hs Ht).
-      destruct (t_select smT t) as [rs ws]. cbn [fst snd].
+    intros Hs Ht. induction l as [|[f ev] t IH]; [reflexivity|].
+    cbn [select_loop t_select]. unfold any_reg. cbn [existsb fst]. fold (any_reg regs t).
+    destruct (zget f regs) as [kev|] eqn:Ef.
+    - rewrite (zmem_some _ _ _ Ef). cbn [orb].
+      rewrite (select_one_first i f ev kev selS) by (rewrite Hs, Ef; reflexivity).
+      rewrite Ht, Ef. destruct (t_select smT t) as [rs ws] eqn:Et.
+      rewrite (select_loop_one i regs selS smT t _ _ Hs Ht), Et. cbn [fst snd].
       destruct (N.land (N.land ev kev) EVENT_READ =? 0), (N.land (N.land ev kev) EVENT_WRITE =? 0); reflexivity.
-    - exact IH.
+    - replace (zmem f regs) with false by (symmetry; apply zmem_false; exact Ef). cbn [orb].
+      unfold select_one. cbv beta iota. rewrite Hs, Ef, Ht, Ef. rewrite IH. destruct (t_select smT t); reflexivity.
   Qed.
 End Sync.
+
+(* ------------------------------------------------------------------ the two drivers, side by side *)
+Section Main.
+  Variable W : Type.
+  Variable IO : Type.
+  Variable w_initialize : W -> IO -> W * result unit.
+  Variable w_get_events : W -> IO -> W * result sel_events.
+  Variable w_handle_events : W -> list fd -> list fd -> IO -> W * result bool.
+  Variable w_shutdown : W -> IO -> W * result unit.
+  Variable w_is_inactive : W -> N -> IO -> W * result bool.
+  Variable w_has_buffer : W -> bool.
+  Variable w_client_fd : W -> fd.
+  Variable w_flush_once : W -> IO -> W * result unit.
+  Variable tick_limit : N.
+
+  Notation State := (state W).
+  Notation Event := (event W IO).
+  Notation TEvent := (tevent IO).
+  Notation CLEANUP := (cleanup W IO w_shutdown None).
+  Notation UWE := (update_work_events W IO w_get_events).
+  Notation UPD := (update_selector W IO w_get_events w_shutdown None).
+  Notation REST := (run_once_rest W IO w_initialize w_handle_events w_shutdown None).
+  Notation BODY := (loop_body W IO w_initialize w_get_events w_handle_events w_shutdown w_is_inactive None tick_limit).
+  Notation RUN := (run_forever W IO w_initialize w_get_events w_handle_events w_shutdown w_is_inactive None tick_limit).
+  Notation T_RUN_ONCE := (t_run_once W IO w_get_events w_handle_events).
+  Notation T_SHUTDOWN := (t_shutdown W IO w_shutdown w_has_buffer w_client_fd w_flush_once).
+  Notation T_LOOP := (threaded_loop W IO w_get_events w_handle_events w_shutdown w_is_inactive w_has_buffer w_client_fd w_flush_once).
+  Notation T_RUN := (threaded_run W IO w_initialize w_get_events w_handle_events w_shutdown w_is_inactive w_has_buffer w_client_fd w_flush_once).
+
+  (* premises about the work *)
+  Definition no_reaping : Prop := forall w c io, w_is_inactive w c io = (w, Ok false).
+  Definition idle_noop : Prop := forall w io, w_handle_events w [] [] io = (w, Ok false).
+
+  (* the same schedule for the executor: nothing else arrives, tasks complete at once *)
+  Definition lift (e : TEvent) : Event :=
+    {| ev_kfail := te_kfail e; ev_ready := te_ready e; ev_arrival := ANone; ev_fin := fun _ => true;
+       ev_io := fun _ => te_io e; ev_clock := te_clock e; ev_running_set := false |}.
+  Definition arrive (e : TEvent) (i : work_id) (w : W) : Event :=
+    {| ev_kfail := []; ev_ready := []; ev_arrival := ANew i w; ev_fin := fun _ => true;
+       ev_io := fun _ => te_io e; ev_clock := te_clock e; ev_running_set := false |}.
+
+  (* the threaded loop up to the point where it is left: work state, selector, the event in force *)
+  Fixpoint threaded_core (evs : list TEvent) (w : W) (sm : tsel) : W * tsel * option TEvent :=
+    match evs with
+    | [] => (w, sm, None)
+    | e :: t =>
+        let (w0, ri) := w_is_inactive w (te_clock e) (te_io e) in
+        match ri with
+        | Err _ | Ok true => (w0, sm, Some e)
+        | Ok false =>
+            let '(w1, sm1, r1) := T_RUN_ONCE e w0 sm in
+            match r1 with
+            | Ok false => threaded_core t w1 sm1
+            | Ok true | Err _ => (w1, sm1, Some e)
+            end
+        end
+    end.
+
+  Lemma threaded_loop_core evs : forall w sm,
+    T_LOOP evs w sm =
+    match threaded_core evs w sm with
+    | (w', sm', None) => (w', TRunning)
+    | (w', sm', Some e) => let (w'', r) := T_SHUTDOWN e w' sm' in (w'', TDone r)
+    end.
+  Proof.
+    induction evs as [|e t IH]; intros w sm; cbn [threaded_loop threaded_core]; [reflexivity|].
+    destruct (w_is_inactive w (te_clock e) (te_io e)) as [w0 ri]. destruct ri as [[|]|x]; try reflexivity.
+    destruct (T_RUN_ONCE e w0 sm) as [[w1 sm1] r1]. destruct r1 as [[|]|x]; try reflexivity. apply IH.
+  Qed.
+
+  Definition sel_of_events (evs : sel_events) : tsel := map (fun p => (fst p, (snd p, 0%Z))) evs.
+  Lemma zget_sel_of_events evs f :
+    zget f (sel_of_events evs) = match zget f evs with Some m => Some (m, 0%Z) | None => None end.
+  Proof.
+    induction evs as [|[g m] t IH]; cbn [sel_of_events map zget fst snd]; [reflexivity|].
+    destruct (f =? g)%Z; [reflexivity|exact IH].
+  Qed.
+
+  (* along the run: no epoll_ctl failure, well-formed events whose key set never shrinks *)
+  Fixpoint tame (evs : list TEvent) (w : W) (prev : sel_events) : Prop :=
+    match evs with
+    | [] => True
+    | e :: t =>
+        te_kfail e = [] /\
+        match w_get_events w (te_io e) with
+        | (w1, Ok evs1) =>
+            valid_events evs1 /\ (forall f, zget f evs1 = None -> zget f prev = None) /\
+            let (rs, ws) := t_select (sel_of_events evs1) (te_ready e) in
+            match w_handle_events w1 rs ws (te_io e) with
+            | (w2, Ok false) => tame t w2 evs1
+            | _ => True
+            end
+        | (_, Err _) => True
+        end
+    end.
+
+  (* the executor state while the single work i is live *)
+  Record synced (i : work_id) (w : W) (prev : sel_events) (st : State) : Prop := {
+    sy_works : works st = [(i, w)];
+    sy_regs : forall f, zget f (regs_of W i st) = zget f prev;
+    sy_sel : sel_is i prev (sel st);
+    sy_unf : unfinished st = [];
+    sy_gone : gone st = []
+  }.
+  (* ... and once it is over *)
+  Record ended (i : work_id) (wfinal : W) (st : State) : Prop := {
+    en_works : works st = [];
+    en_sel : forall f, zget f (sel st) = None;
+    en_unf : unfinished st = [];
+    en_gone : gone st = [(i, wfinal)]
+  }.
+
+  Lemma t_select_none sm regs l :
+    (forall f, zget f sm = match zget f regs with Some m => Some (m, 0%Z) | None => None end) ->
+    any_reg regs l = false -> t_select sm l = ([], []).
+  Proof.
+    intros H. induction l as [|[f ev] t IH]; cbn [t_select any_reg existsb fst]; [reflexivity|].
+    intros Ha. apply orb_false_iff in Ha as [Ha1 Ha2]. rewrite (IH Ha2), H.
+    apply zmem_false in Ha1. rewrite Ha1. reflexivity.
+  Qed.
+
+  (* cleanup of the only work *)
+  Lemma cleanup_only e i w prev (st : State) :
+    synced i w prev st -> (forall f m, zget f prev = Some m -> (0 <= f)%Z) ->
+    ended i (fst (w_shutdown w (ev_io e i))) (CLEANUP e i st).
+  Proof.
+    intros [Hw Hr Hs Hu Hg] Hpos. constructor.
+    - rewrite cleanup_works, Hw. cbn [zdel]. rewrite Z.eqb_refl. reflexivity.
+    - intros f. rewrite cleanup_sel_get, Hs. unfold zmem. rewrite Hr.
+      destruct (zget f prev) as [m|] eqn:E; [|reflexivity].
+      replace (0 <=? f)%Z with true by (symmetry; apply Z.leb_le; eapply Hpos; exact E). reflexivity.
+    - rewrite cleanup_unfinished. exact Hu.
+    - rewrite cleanup_gone, Hw, Hg. cbn [zget]. rewrite Z.eqb_refl. reflexivity.
+  Qed.
+
+  Lemma valid_events_pos evs f m : valid_events evs -> zget f evs = Some m -> (0 <= f)%Z.
+  Proof. intros [_ Hv] H. apply (Hv f m). apply zget_In_local. exact H. Qed.
+
+  Lemma select_loop_empty (sm : selmap) l : forall acc,
+    (forall f, zget f sm = None) -> select_loop None sm acc l = Ok acc.
+  Proof.
+    intros acc H. revert acc. induction l as [|[f ev] t IH]; intros acc; cbn [select_loop]; [reflexivity|].
+    unfold select_one. destruct acc as [wbi nwa]. rewrite H. apply IH.
+  Qed.
+
+  Hypothesis Hnr : no_reaping.
+  Hypothesis Hidle : idle_noop.
+
+  (* _update_selector when get_events raises: the work is torn down *)
+  Lemma upd_err e i w prev (st : State) w1 x :
+    synced i w prev st -> (forall f m, zget f prev = Some m -> (0 <= f)%Z) ->
+    w_get_events w (te_io e) = (w1, Err x) ->
+    ended i (fst (w_shutdown w1 (te_io e))) (UPD (lift e) st).
+  Proof.
+    intros Hsy Hpos Hg. pose proof Hsy as [Hw Hr Hs Hu Hgn].
+    unfold update_selector. rewrite Hw, Hu. cbn [zkeys map fst fold_left t_work].
+    unfold update_selector_one. cbn [zin]. unfold update_work_events. rewrite Hw. cbn [zget]. rewrite Z.eqb_refl.
+    cbn [ev_io lift]. rewrite Hg.
+    apply (cleanup_only (lift e) i w1 prev); [|exact Hpos].
+    constructor; cbn [works set_works sel unfinished gone]; try assumption.
+    rewrite ?Hw. cbn [zset]. rewrite Z.eqb_refl. reflexivity.
+  Qed.
+
+  (* ... and when it returns a well-formed, non-shrinking dict: registrations = exactly that dict *)
+  Lemma upd_ok e i w prev (st : State) w1 evs1 :
+    synced i w prev st -> te_kfail e = [] ->
+    w_get_events w (te_io e) = (w1, Ok evs1) -> valid_events evs1 ->
+    (forall f, zget f evs1 = None -> zget f prev = None) ->
+    synced i w1 evs1 (UPD (lift e) st).
+  Proof.
+    intros Hsy Hk Hg Hv Hmono. pose proof Hsy as [Hw Hr Hs Hu Hgn].
+    unfold update_selector. rewrite Hw, Hu. cbn [zkeys map fst fold_left t_work].
+    unfold update_selector_one. cbn [zin]. unfold update_work_events. rewrite Hw. cbn [zget]. rewrite Z.eqb_refl.
+    cbn [ev_io lift]. rewrite Hg.
+    set (st1 := set_works st (zset i w1 [(i, w)])).
+    destruct (uwe_loop_sync W IO (lift e) i evs1 st1 prev Hk Hv) as (st' & E & C & Hr' & Hs').
+    { intros f. apply Hr. }
+    { exact Hs. }
+    rewrite E. destruct C as (C1 & C2 & _ & _ & C5 & _).
+    assert (Hmg : forall f, merged evs1 prev f = zget f evs1).
+    { intros f. unfold merged. destruct (zget f evs1) eqn:Ef; [reflexivity|apply Hmono; exact Ef]. }
+    constructor.
+    - rewrite C1. subst st1. cbn [works set_works zset]. rewrite Z.eqb_refl. reflexivity.
+    - intros f. rewrite Hr', Hmg. reflexivity.
+    - intros f. rewrite Hs', Hmg. reflexivity.
+    - rewrite C2. exact Hu.
+    - rewrite C5. exact Hgn.
+  Qed.
+
+  (* the rest of _run_once when nothing is left *)
+  Lemma rest_ended e i wf (st : State) : ended i wf st -> REST (lift e) st = (st, Ok false).
+  Proof.
+    intros [Hw Hs Hu Hg]. unfold run_once_rest, selected_events.
+    rewrite (select_loop_empty (sel st) (ev_ready (lift e)) _ Hs). reflexivity.
+  Qed.
+
+  (* the rest of _run_once for the live work: handle_events gets the lists the threaded driver computes *)
+  Lemma rest_live e i w1 evs1 (st : State) w2 r :
+    i <> 0%Z -> synced i w1 evs1 st ->
+    (let (rs, ws) := t_select (sel_of_events evs1) (te_ready e) in w_handle_events w1 rs ws (te_io e)) = (w2, r) ->
+    exists st', REST (lift e) st = (st', Ok false) /\
+                match r with
+                | Ok false => synced i w2 evs1 st'
+                | _ => (forall f m, zget f evs1 = Some m -> (0 <= f)%Z) -> ended i (fst (w_shutdown w2 (te_io e))) st'
+                end.
+  Proof.
+    intros Hi0 Hsy Hh. pose proof Hsy as [Hw Hr Hs Hu Hgn].
+    unfold run_once_rest, selected_events. cbn [ev_ready lift].
+    rewrite (select_loop_sync i evs1 (sel st) (sel_of_events evs1) (te_ready e) Hs (zget_sel_of_events evs1)).
+    cbn [receive_from_work_queue ev_arrival lift].
+    destruct (any_reg evs1 (te_ready e)) eqn:Ea.
+    - destruct (t_select (sel_of_events evs1) (te_ready e)) as [rs ws].
+      cbn [create_tasks]. apply Z.eqb_neq in Hi0. rewrite Hi0, Hw. cbn [zget]. rewrite Z.eqb_refl.
+      unfold wait_for_tasks. cbn [unfinished set_unfinished ev_fin lift]. rewrite Hu. cbn [app filter negb].
+      cbn [run_tasks run_task t_work t_r t_w works set_unfinished]. rewrite Hw. cbn [zget]. rewrite Z.eqb_refl.
+      cbn [ev_io lift]. rewrite Hh. cbn [works set_works set_unfinished zset]. rewrite Z.eqb_refl.
+      eexists. split; [reflexivity|].
+      destruct r as [[|]|x].
+      + intros Hpos. cbn [cleanup_finished fold_left fst snd].
+        apply (cleanup_only (lift e) i w2 evs1); [|exact Hpos].
+        constructor; cbn [works set_works set_unfinished sel unfinished gone regs_of registered]; try assumption; try reflexivity.
+        exact Hr.
+      + cbn [cleanup_finished fold_left fst snd].
+        constructor; cbn [works set_works set_unfinished sel unfinished gone]; try assumption; try reflexivity. exact Hr.
+      + intros Hpos. cbn [cleanup_finished fold_left fst snd].
+        apply (cleanup_only (lift e) i w2 evs1); [|exact Hpos].
+        constructor; cbn [works set_works set_unfinished sel unfinished gone]; try assumption; try reflexivity. exact Hr.
+    - rewrite (t_select_none (sel_of_events evs1) evs1 (te_ready e) (zget_sel_of_events evs1) Ea) in Hh.
+      rewrite Hidle in Hh. inversion Hh; subst. exists st. split; [reflexivity|exact Hsy].
+  Qed.
+
+  (* the periodic sweep changes nothing: nobody is reaped *)
+  Lemma sweep_synced e i w prev (st : State) :
+    synced i w prev st -> synced i w prev (cleanup_inactive W IO w_shutdown w_is_inactive None (lift e) st).
+  Proof.
+    intros [Hw Hr Hs Hu Hg]. unfold cleanup_inactive. rewrite Hw. cbn [zkeys map fst inactive_scan].
+    rewrite Hw. cbn [zget]. rewrite Z.eqb_refl. rewrite Hnr. cbn [works set_works zset inactive_scan fold_left]. rewrite Z.eqb_refl.
+    constructor; cbn [works set_works sel unfinished gone]; try assumption. reflexivity.
+  Qed.
+  Lemma sweep_ended e i wf (st : State) :
+    ended i wf st -> cleanup_inactive W IO w_shutdown w_is_inactive None (lift e) st = st.
+  Proof. intros [Hw _ _ _]. unfold cleanup_inactive. rewrite Hw. reflexivity. Qed.
+
+  Lemma synced_tick i w prev (st : State) x : synced i w prev st -> synced i w prev (set_tick st x).
+  Proof. intros [A B C D E]. constructor; assumption. Qed.
+  Lemma ended_tick i wf (st : State) x : ended i wf st -> ended i wf (set_tick st x).
+  Proof. intros [A B C D]. constructor; assumption. Qed.
+
+  Lemma body_ended e i wf (st : State) :
+    ended i wf st -> exists st', BODY (lift e) st = (st', Running) /\ ended i wf st'.
+  Proof.
+    intros He. unfold loop_body, run_once.
+    assert (Hu : UPD (lift e) st = st).
+    { unfold update_selector. rewrite (en_works _ _ _ He). reflexivity. }
+    rewrite Hu, (rest_ended e i wf st He). cbn [ev_running_set lift].
+    destruct (tick_limit <=? tick st).
+    - rewrite (sweep_ended e i wf st He). eexists. split; [reflexivity|apply ended_tick; exact He].
+    - eexists. split; [reflexivity|apply ended_tick; exact He].
+  Qed.
+
+  Lemma run_ended evs i wf : forall (st : State),
+    ended i wf st -> exists st', RUN (map lift evs) st = (st', Running) /\ ended i wf st'.
+  Proof.
+    induction evs as [|e t IH]; intros st He; cbn [map run_forever]; [exists st; auto|].
+    destruct (body_ended e i wf st He) as (st1 & E1 & He1). rewrite E1. apply IH; exact He1.
+  Qed.
+
+  (* one turn of both loops *)
+  Lemma body_step e i w prev (st : State) (sm : tsel) :
+    i <> 0%Z -> synced i w prev st -> (forall f m, zget f prev = Some m -> (0 <= f)%Z) ->
+    (forall f, zget f sm = None) -> tame [e] w prev ->
+    exists st', BODY (lift e) st = (st', Running) /\
+      match T_RUN_ONCE e w sm with
+      | (w2, sm2, Ok false) =>
+          (forall f, zget f sm2 = None) /\
+          exists evs1, synced i w2 evs1 st' /\ (forall f m, zget f evs1 = Some m -> (0 <= f)%Z) /\
+                       fst (w_get_events w (te_io e)) = fst (w_get_events w (te_io e)) /\
+                       snd (w_get_events w (te_io e)) = Ok evs1
+      | (w2, _, _) => ended i (fst (w_shutdown w2 (te_io e))) st'
+      end.
+  Proof.
+    intros Hi0 Hsy Hpos Hsm [Hk Ht]. unfold loop_body, run_once, t_run_once.
+    destruct (w_get_events w (te_io e)) as [w1 rg] eqn:Hg.
+    destruct rg as [evs1|x].
+    - destruct Ht as (Hv & Hmono & Ht).
+      pose proof (upd_ok e i w prev st w1 evs1 Hsy Hk Hg Hv Hmono) as Hsy1.
+      destruct (t_register_all_ok evs1 sm Hv (fun f _ => Hsm f)) as (sm1 & Er & Hsm1). rewrite Hk, Er.
+      assert (Hsm1' : forall f, zget f sm1 = zget f (sel_of_events evs1)).
+      { intros f. rewrite Hsm1, zget_sel_of_events, Hsm. destruct (zget f evs1); reflexivity. }
+      rewrite (t_select_ext sm1 (sel_of_events evs1) (te_ready e) Hsm1').
+      destruct (t_select (sel_of_events evs1) (te_ready e)) as [rs ws] eqn:Ets.
+      destruct (w_handle_events w1 rs ws (te_io e)) as [w2 r] eqn:Hh.
+      destruct (rest_live e i w1 evs1 (UPD (lift e) st) w2 r Hi0 Hsy1) as (st2 & E2 & H2).
+      { rewrite Ets. exact Hh. }
+      rewrite E2. cbn [ev_running_set lift].
+      assert (Hpos1 : forall f m, zget f evs1 = Some m -> (0 <= f)%Z) by (intros f m; apply valid_events_pos; exact Hv).
+      assert (Hsm2 : forall f, zget f (t_unregister_all sm1 (zkeys evs1)) = None).
+      { intros f. rewrite t_unregister_all_fold, unregister_all_get, zin_zkeys, Hsm1, Hsm. unfold zmem.
+        destruct (zget f evs1) as [m|] eqn:Ef; [|reflexivity].
+        replace (0 <=? f)%Z with true by (symmetry; apply Z.leb_le; eapply Hpos1; exact Ef). reflexivity. }
+      destruct r as [[|]|x].
+      + specialize (H2 Hpos1). destruct (tick_limit <=? tick st2).
+        * rewrite (sweep_ended e i _ st2 H2). eexists. split; [reflexivity|apply ended_tick; exact H2].
+        * eexists. split; [reflexivity|apply ended_tick; exact H2].
+      + destruct (tick_limit <=? tick st2).
+        * eexists. split; [reflexivity|]. split; [exact Hsm2|]. exists evs1.
+          split; [apply synced_tick, sweep_synced; exact H2|]. split; [exact Hpos1|]. split; reflexivity.
+        * eexists. split; [reflexivity|]. split; [exact Hsm2|]. exists evs1.
+          split; [apply synced_tick; exact H2|]. split; [exact Hpos1|]. split; reflexivity.
+      + specialize (H2 Hpos1). destruct (tick_limit <=? tick st2).
+        * rewrite (sweep_ended e i _ st2 H2). eexists. split; [reflexivity|apply ended_tick; exact H2].
+        * eexists. split; [reflexivity|apply ended_tick; exact H2].
+    - pose proof (upd_err e i w prev st w1 x Hsy Hpos Hg) as He.
+      rewrite (rest_ended e i _ _ He). cbn [ev_running_set lift].
+      destruct (tick_limit <=? tick (UPD (lift e) st)).
+      + rewrite (sweep_ended e i _ _ He). eexists. split; [reflexivity|apply ended_tick; exact He].
+      + eexists. split; [reflexivity|apply ended_tick; exact He].
+  Qed.
+End Main.
